@@ -15,6 +15,7 @@ ASSUMPTIONS = ['request payloads carry an 8-byte harness header in data or metad
                'lines shared by the websocket transports; aiohttp/quart/QUIC glue is not executed']
 DECIDING_REQUIRED = ('payloads_emitted', 'payloads_delivered', 'runs_with_concurrent_streams',
                      'runs_with_fragmentation', 'fragmented_frames_seen')
+MAXN = 0x7FFFFFFF
 BUDGET_S = {'quick': 100, 'thorough': 1800}
 CASE_WALL_LIMIT = {'quick': 60, 'thorough': 180}
 
@@ -177,7 +178,11 @@ def gen_case(rng, tier):
     iid = 1
     for side, n in (('c', n_c), ('s', n_s)):
         for _ in range(n):
-            specs.append(mixgen.draw_spec(rng, iid, cfg, side=side, big=big))
+            sp = mixgen.draw_spec(rng, iid, cfg, side=side, big=big)
+            if sp['model'] in ('stream', 'channel') and rng.random() < 0.15:
+                sp['requester'] = 'collector'      # AwaitableRSocket + CollectorSubscriber as the requesting application
+                sp['n0'] = rng.choice([1, 2, 3, 7, MAXN])
+            specs.append(sp)
             iid += 1
     return cfg, specs
 
